@@ -16,7 +16,7 @@ seeds = st.integers(0, 2 ** 32 - 1)
 
 @st.composite
 def structures(draw, max_atoms=300, full_rank_only=False, allow_zero_periodic=True, slab_bias=False):
-    fam = draw(st.sampled_from(["isolated", "crystal", "twoincell", "crystallite", "grains", "stack", "gas", "molecule", "slab"]))
+    fam = draw(st.sampled_from(["isolated", "crystal", "twoincell", "crystallite", "grains", "stack", "gas", "molecule", "slab", "farpair"]))
     d = {"family": fam, "pbc": draw(gc.pbcs)}
     if slab_bias:
         # C17 needs many two-dimensional networks: more slabs, mostly periodic in the slab plane
@@ -36,6 +36,13 @@ def structures(draw, max_atoms=300, full_rank_only=False, allow_zero_periodic=Tr
     elif fam == "molecule":
         d["mol"] = draw(st.sampled_from(MOLECULES))
         d["box"] = [draw(gc.ffloat(2.0, 10.0)) for _ in range(3)]
+    elif fam == "farpair":
+        # two fragments (molecules or single atoms) far apart in a big box: a structure of several components, with or without
+        # periodic directions
+        d["mols"] = [draw(st.sampled_from(MOLECULES + ["C", "Cu"])) for _ in range(2)]
+        d["sep"] = draw(st.sampled_from([12.0, 8.0, 20.0, 30.0])) + draw(gc.ffloat(0.0, 2.0))
+        d["dir"] = draw(st.lists(gc.ffloat(-1.0, 1.0), min_size=3, max_size=3))
+        d["box"] = [draw(st.sampled_from([40.0, 25.0, 60.0])) + draw(gc.ffloat(0.0, 5.0)) for _ in range(3)]
     else:
         d["proto"] = draw(st.integers(0, len(PROTO) - 1))
         d["cubic"] = draw(st.booleans())
@@ -109,6 +116,15 @@ def build(d):
     elif fam == "molecule":
         s = ase.build.molecule(d["mol"])
         s.set_cell(np.diag(d["box"]))
+        s.set_pbc(pbc)
+    elif fam == "farpair":
+        parts = [Atoms(m, positions=[[0.0, 0.0, 0.0]]) if m in ("C", "Cu") else ase.build.molecule(m) for m in d["mols"]]
+        v = np.array(d["dir"], float)
+        v = v / np.linalg.norm(v) if np.linalg.norm(v) > 1e-6 else np.array([1.0, 0.0, 0.0])
+        parts[1].translate(v * float(d["sep"]))
+        s = parts[0] + parts[1]
+        s.set_cell(np.diag(d["box"]))
+        s.center()
         s.set_pbc(pbc)
     else:
         b = _proto(d["proto"], d["cubic"])
